@@ -269,6 +269,52 @@ theorem evalPoly_toMv (z : ℕ → K) (p : Poly K) : evalPoly z p = MvPolynomial
     simp only [evalMono, npow_eq, Mono.toFinsupp_apply, Mono.get]
     rfl
 
+/-- if every monomial of `f` has equal exponents in `x_i` and `x_j` (`i ≠ j`), `∂f/∂x_i` vanishes wherever `x_j = 0` -/
+theorem eval_pderiv_eq_zero (f : MvPolynomial (Fin 6) K) (z : Fin 6 → K) (i j : Fin 6) (hij : i ≠ j) (hz : z j = 0)
+    (hs : ∀ s ∈ f.support, s i = s j) : MvPolynomial.eval z (pderiv i f) = 0 := by
+  conv_lhs => rw [f.as_sum]
+  rw [map_sum, map_sum]
+  apply Finset.sum_eq_zero
+  intro s hsupp
+  rw [pderiv_monomial, eval_monomial]
+  by_cases h0 : s i = 0
+  · simp [h0]
+  · have hj : (s - Finsupp.single i 1 : Fin 6 →₀ ℕ) j ≠ 0 := by
+      have := hs s hsupp
+      simp only [Finsupp.coe_tsub, Pi.sub_apply, Finsupp.single_apply, hij, ↓reduceIte]
+      omega
+    have : ((s - Finsupp.single i 1).prod fun n e => z n ^ e) = 0 := by
+      apply Finset.prod_eq_zero (Finsupp.mem_support_iff.mpr hj)
+      show z j ^ _ = 0
+      rw [hz, zero_pow hj]
+    rw [this, mul_zero]
+
+
+/-- two polynomials whose coefficients agree on the monomials free of `x_0`, `x_3` take the same value wherever
+`x_0 = x_3 = 0` -/
+theorem eval_eq_of_coeff_eq_on_cm (f g : MvPolynomial (Fin 6) K) (z : Fin 6 → K) (h0 : z 0 = 0) (h3 : z 3 = 0)
+    (h : ∀ s : Fin 6 →₀ ℕ, s 0 = 0 → s 3 = 0 → MvPolynomial.coeff s f = MvPolynomial.coeff s g) :
+    MvPolynomial.eval z f = MvPolynomial.eval z g := by
+  rw [← sub_eq_zero, ← map_sub]
+  conv_lhs => rw [(f - g).as_sum]
+  rw [map_sum]
+  apply Finset.sum_eq_zero
+  intro s hs
+  rw [eval_monomial]
+  have hc := MvPolynomial.mem_support_iff.mp hs
+  rw [MvPolynomial.coeff_sub, sub_ne_zero] at hc
+  have : ¬ (s 0 = 0 ∧ s 3 = 0) := fun hh => hc (h s hh.1 hh.2)
+  have hz : (s.prod fun n e => z n ^ e) = 0 := by
+    by_cases e0 : s 0 = 0
+    · have e3 : s 3 ≠ 0 := fun e3 => this ⟨e0, e3⟩
+      apply Finset.prod_eq_zero (Finsupp.mem_support_iff.mpr e3)
+      show z 3 ^ _ = 0
+      rw [h3, zero_pow e3]
+    · apply Finset.prod_eq_zero (Finsupp.mem_support_iff.mpr e0)
+      show z 0 ^ _ = 0
+      rw [h0, zero_pow e0]
+  rw [hz, mul_zero]
+
 end
 
 end HitenModel.C08
